@@ -38,6 +38,7 @@ ALLOWED_ATOMS = [
     r"^self\.path_length_factors$",
     r"^\(q\d_0, q\d_1\) in sub(path|set)_constraint_edges$",
     r"^\(q\d_0, q\d_1\) in \{(\w+) for (\w+) in self\.sub(path|set)_constraints for \1 in zip\(\2\[:-1\], \2\[1:\]\)\}$",
+    r"^\(q\d_0, q\d_1\) in \{\((\w+)\[(\w+)\], \1\[\2 \+ 1\]\) for \1 in self\.sub(path|set)_constraints for \2 in range\(len\(\1\) - 1\)\}$",
     r"^EQ0\[-1 \+ self\.sub(path|set)_constraints_coverage\]$",
     r"^self\.flow_attr in EDGEATTR\(.*\)$",
 ]
